@@ -54,7 +54,8 @@ def random_pattern(rng: random.Random) -> str:
         k = rng.random()
         if cp < 256 and k < 0.6:
             return "\\x%02x" % cp if rng.random() < 0.7 else "\\x%02X" % cp
-        if cp < 0x10000 and k < 0.9:
+        if cp < 0x10000:
+            # the front end refuses \\U escapes below the supplementary planes
             return "\\u%04x" % cp
         return "\\U%08x" % cp
 
